@@ -19,6 +19,7 @@ import Goat.ClientStream
 import Goat.Drv.MuxReplay
 import Goat.Drv.SrvReplay
 import Goat.Drv.PbOps
+import Goat.UnaryReply
 open Goat Goat.Drv
 
 def showOptBytes : Option Bytes → String
@@ -257,6 +258,11 @@ def parseSrvObs (s : String) : Option SrvReplay.Obs :=
   | ["wdone"] => some .waitDone
   | _ => none
 
+def showRoute (e : Env) : String :=
+  match e.header with
+  | some h => s!"id={e.id}~method={hexOf h.method}~src={hexOf h.src}~dst={hexOf h.dst}~next={showList hexOf "," h.next}~reset={match e.reset with | some r => hexOf r | none => "none"}"
+  | none => s!"id={e.id}~nohdr"
+
 def evalOp (op input : String) : Option String :=
   match op with
   | "b64enc" => (parseHex input).map (fun b => hexOf (Base64.encode b))
@@ -293,6 +299,24 @@ def evalOp (op input : String) : Option String :=
     | _ => none
   | "cliseq" => match input.splitOn "|" with
     | [_, seq] => (parseList parseRespEnv ";" seq).map cliSeq
+    | _ => none
+  | "unaryreply" => match input.splitOn "|" with
+    -- id|method|src|dst|record|kind|code|msg|hdrmd|trlmd|payload
+    | [id, m, a, b, rec, kind, code, msg, hm, tm, pl] => do
+      let id ← id.toNat?; let m ← parseHex m; let a ← parseHex a; let b ← parseHex b
+      let rec ← parseList parseHex "," rec; let code ← code.toInt?; let msg ← parseHex msg
+      let hm ← parseMD hm; let tm ← parseMD tm; let pl ← parseHex pl
+      let req : Env := { id := id, header := some { method := m, src := a, dst := b, record := rec }, body := some pl }
+      let e ← parseHErr kind code msg [] []
+      let r := UnaryReply.reply req m (if e == .nil then some pl else none) e hm tm
+      some (showRoute r ++ "~" ++ showEnv r)
+    | _ => none
+  | "resetreply" => match input.splitOn "|" with
+    | [id, m, a, b, rec] => do
+      let id ← id.toNat?; let m ← parseHex m; let a ← parseHex a; let b ← parseHex b
+      let rec ← parseList parseHex "," rec
+      let r := UnaryReply.reset { id := id, header := some { method := m, src := a, dst := b, record := rec }, body := some [] }
+      some (showRoute r ++ "~" ++ showEnv r)
     | _ => none
   | "utsrun" => match input.splitOn "|" with
     -- unaryServerTransportStream: a pool of metadata sets "md#md#…" and operations H<i> S<i> T<i> on pool entries
